@@ -360,7 +360,7 @@ def units(tier):
             for a, b in ((("layerFail", None), ("sendClose", "layerFail"), ("peerClose", "layerFail")) if q else
                          (("layerFail", None), ("sendClose", "layerFail"), ("peerClose", "layerFail"), ("send", "layerFail"), ("peerViolation", "layerFail"))):
                 U.append(("layerfail/%s/%s/%s+%s" % ("S" if server else "C", "drop" if fbd else "hs", a, b or "*"), "lifecycle",
-                          dict(server=server, fbd=fbd, echo=False, first=a, second=b, K=2 if q else 3, tmo=[1, 1]), dict(weight=4)))
+                          dict(server=server, fbd=fbd, echo=False, first=a, second=b, K=2 if (q or b is None) else 3, tmo=[1, 1]), dict(weight=4)))
     # the asyncio adapter on a virtual-time event loop (own interpreter per unit): same event alphabet, same monitors
     for server in (True, False):
         for fbd in ((False,) if q else (True, False)):
